@@ -319,7 +319,7 @@ CHECKS = {
         category="other",
         text="Partial by nature: panics, stack depth and running time are runtime facts. What is proved (Props/C19.lean) is about the models: "
              "every model function is total (Lean's termination checker, no partial definitions) and the modelled kernels produce output "
-             "linear in their input (crlf_at_most_doubles, relaxed_body_no_growth, relaxed_headers_no_growth, base64_length, base64_body_linear, xtext_at_most_triples, envelope_json_linear, mime_version_short, data_phase_linear). What is checked "
+             "linear in their input (crlf_at_most_doubles, relaxed_body_no_growth, relaxed_headers_no_growth, base64_length, base64_body_linear, xtext_at_most_triples, envelope_json_linear, mime_version_short, folding_writer_linear (the folding writer at most triples its input), plain_header_value_linear (HeaderValue::new on printable words), content_type_linear, data_phase_linear). What is checked "
              "on the code: 29 public entry points (FromStr / parse / new / builder / encode / sign / serde / URL) on boundary characters at "
              "every position of valid templates, structure-aware mutations, byte soup and 64 KiB repetitions, in threads with 2 MiB stacks "
              "under catch_unwind, in the optimised build and (one worker process per case) in the opt-level 0 build; wall time of sizes "
